@@ -113,5 +113,18 @@ PROPS["C15"] = {
     "replay_help": "case.kind table: ops with real keys; in the Coq case keys are replaced by their rank among all keys of the case; correspondence_code 1 = accepted flags, footer position, offset-table bytes or lookups differ from the model; oracle_code 1 = lookups/iteration/min/max/count differ from the entries accepted by the strictly-ascending rule; kind merge: inputs and the real merged output; kind load: files and key",
 }
 
+PROPS["C20"] = {
+    "harness": "c20",
+    "props_files": ["C20/Props.v"],
+    "n": {"quick": 110, "thorough": 3000},
+    "level_text": "Theorem (Coq, no axioms): for every strictly sorted key list of any size over any byte values, lookup in the logical trie that the builder constructs (terminator for a key ending at a node, grouping by next byte, one-way path compression into prefixes, single-key groups as label + suffix) equals lookup in the sorted list of pairs: present keys give their value, absent keys (proper prefixes, extensions, neighbours) give None. Tied to the code structurally: the model's trie, flattened level by level, must equal the real builder's label / has-child / louds / prefix / suffix / value vectors; and functionally: Get before and after serialisation, ordered iteration, Seek and prefix enumeration on the real succinct trie are compared with sorted-map semantics.",
+    "level_note": "Trusted / validated only: the succinct navigation (rank/select tables, label search, iterator) is exercised and compared with the sorted-map results, not modelled (L2 of the design); the theorem covers the logical layer. TrieBucket merging is not yet covered.",
+    "rule": "key sets of 1-40 keys over small alphabets incl. 0x00/0xFF/0xFE, with prefix chains, proper prefixes, shared suffixes and the empty key, plus 1.5k/5k-key sets checked directly; probes: every key, its proper prefix, extensions by 0x00/0xFF/b, last byte +1, empty key; prefix enumeration for the first 25 probes; non-trivial = >= 3 keys of which one is a proper prefix of another; distinct = different JSON",
+    "trusted": ["pkg/trie rank/select/bit vectors (naive specification not modelled; results compared)"],
+    "assumptions": ["keys are distinct and sorted bytewise before Build (the callers' contract)"],
+    "statement_status": {"build_get": "proved (L1)", "l2_refines_l1": "not proved: covered by the structural comparison of the builder vectors and by functional comparison only", "seek_lower_bound": "refuted on the implementation for absent keys (known finding C20:seek-absent-key-lands-on-predecessor)", "build_single_empty_key": "refuted (known finding C20:single-empty-key)"},
+    "replay_help": "case.keys = sorted (key bytes, value) pairs; correspondence_code 1 = the builder's level vectors, Get or iteration differ from the model's logical trie, 2 = the model cannot build this key set; oracle_code 1 = Get (in memory or loaded), iteration or prefix enumeration differ from the sorted map, or Seek lands neither on the lower bound nor on the predecessor; 101 = Seek landed on the predecessor of an absent key (known finding); 900 = build/serialise failure, see observed",
+}
+
 for _pid in PROPS:
     NOT_APPLICABLE.pop(_pid, None)
